@@ -386,14 +386,29 @@ def m_request_stale_entry(f, case, viol):
     """mechanism (C20): a remote file P is deleted and re-created, and the application requests P by path before the engine has
     taken in the re-creation event: the request is attached to the entry of the deleted file, the new file arrives as a
     different entry that is not in the request set and is never downloaded.  The differing path must be such a P."""
-    ops = user_ops(case)
+    plan = case.get("plan", [])
+    faulty = bool(case.get("faults") or case.get("fault_table"))
     cand = set()
-    for i, u in enumerate(ops):
-        if u[1] == 1 and u[2] == "delete" and any(v[1] == 1 and v[2] == "create" and v[3] == u[3] for v in ops[i + 1:]):
-            cand.add(u[3])
-    req = set(it[2] for it in case.get("plan", []) if it and it[0] == "X" and it[1] in ("sync_path", "sync_oid"))
+    for i, u in enumerate(plan):
+        if not (u and u[0] == "U" and u[1] == 1 and u[2] == "delete"):
+            continue
+        for j in range(i + 1, len(plan)):
+            v = plan[j]
+            if not (v and v[0] == "U" and v[1] == 1 and v[2] == "create" and v[3] == u[3]):
+                continue
+            # the request must come before the engine has taken in the re-creation: no complete intake of the remote feed
+            # (an 'S 1' not limited by a preceding 'E 1 k') and no run-to-quiet between the re-creation and the request
+            for k in range(j + 1, len(plan)):
+                w = plan[k]
+                if w and w[0] == "Q":
+                    break
+                if w and w[0] == "S" and w[1] == 1 and not (plan[k - 1] and plan[k - 1][0] == "E" and plan[k - 1][1] == 1) and not faulty:
+                    break       # (in runs with injected faults an intake may have failed: there only a run-to-quiet counts)
+                if w and w[0] == "X" and w[1] in ("sync_path", "sync_oid") and w[2] == u[3]:
+                    cand.add(u[3])
+                    break
     paths = _diff_paths(viol)
-    return bool(paths) and all(p in cand and p in req for p in paths)
+    return bool(paths) and all(p in cand for p in paths)
 
 
 def m_mock_path_ci(f, case, viol):
